@@ -162,10 +162,10 @@ pub fn run(tier: Tier) -> i32 {
                     }
                 }
             }
-            // English and German (digit-by-digit dictation): fractions of every length from 13 to 40 digits
+            // English and German (digit-by-digit dictation): fractions of every length from 13 to 64 digits
             if matches!(l, L::En | L::De) && (n == 3 || n == 120) {
-                const PI: &str = "1415926535897932384626433832795028841971";
-                for len in 13..=40usize {
+                const PI: &str = "14159265358979323846264338327950288419716939937510582097494459230781";
+                for len in 13..=64usize {
                     for d in [PI[..len].to_string(), "9".repeat(len), format!("{}1", "0".repeat(len - 1))] {
                         acc.states += 1;
                         acc.traces += 1;
@@ -270,7 +270,7 @@ pub fn run(tier: Tier) -> i32 {
     let cov = json!({
         "exhaustive": true,
         "rule": "every (language, integer part from I, fraction digit string from D) rendered by the reference spellers (digit by digit in en/de, zeros + number otherwise), rewritten at threshold 0 in up to 3 frames; occurrence value checked at threshold 1000; plus negative cases per integer",
-        "bounds": {"integers": ints.len(), "fractions": fracs.len(), "fraction_lengths": format!("all digit strings of length <= {}; plus structured lengths 5-6 (zeros in front of ~125 representative numbers) and 36 fractions of 7-14 digits (scale words inside the fraction); en/de: dictated fractions of every length 13..40", 4)},
+        "bounds": {"integers": ints.len(), "fractions": fracs.len(), "fraction_lengths": format!("all digit strings of length <= {}; plus structured lengths 5-6 (zeros in front of ~125 representative numbers) and 36 fractions of 7-14 digits (scale words inside the fraction); en/de: dictated fractions of every length 13..64", 4)},
     });
     ctx.finish(acc, cov, vec![
         "integer parts are a representative set (quick) or all n < 1000 plus the 16^3 group product (thorough), not all n < 10^9".into(),
